@@ -104,6 +104,7 @@ type sess struct {
 	calls  int
 	log    []string
 	err    bool // the entry point called by the last op returned an error
+	flag   string // distribution counter set by the last op (read and cleared by emit)
 }
 
 func (s *sess) call(id int, ev vaxis.Event, ph string) vxfw.Command {
@@ -526,7 +527,22 @@ func (it *interp) parse(op []string) func() string {
 		c.end()
 		return func() string {
 			begin(sc)
+			before := vxfw.VerifHits(s.vs)
 			s.err = vxfw.VerifMouseUpdate(s.vs, sf) != nil
+			// distribution: did this frame take a hovered widget away from under the pointer?
+			after := map[vxfw.Widget]bool{}
+			for _, h := range vxfw.VerifHits(s.vs) {
+				after[h.W] = true
+			}
+			s.flag = "mupd-nothing-hovered"
+			if len(before) > 0 {
+				s.flag = "mupd-keeps-hovered"
+				for _, h := range before {
+					if !after[h.W] {
+						s.flag = "mupd-removes-hovered"
+					}
+				}
+			}
 			return s.snapshot()
 		}
 	case "mexit":
@@ -1068,6 +1084,10 @@ func run(r *hx.Run) error {
 		}
 		if res == "panic" {
 			r.Count("result-panic")
+		}
+		if it.s != nil && it.s.flag != "" {
+			r.Count(it.s.flag)
+			it.s.flag = ""
 		}
 		r.Emit(op, res)
 	}
